@@ -585,9 +585,36 @@ def check_interferometer(data):
     kw = {}
     if "drop_identity" in data:
         kw["drop_identity"] = data["drop_identity"]
+    if data.get("tol") is not None:
+        kw["tol"] = data["tol"]
 
     def build(q):
-        ops.Interferometer(U, mesh=mesh, **kw) | tuple(q[t] for t in targets)
+        regs = [q[t] for t in targets]
+        if data.get("via") == "kwargs":
+            # the options arrive through _decompose's keyword arguments (a compiler's `decompositions` table) and must
+            # override what the constructor was given
+            other = "rectangular" if mesh != "rectangular" else "triangular_compact"
+            for c in ops.Interferometer(U, mesh=other)._decompose(regs, mesh=mesh, **kw):
+                c.op | (tuple(c.reg) if isinstance(c.reg, (list, tuple)) else c.reg)
+        else:
+            ops.Interferometer(U, mesh=mesh, **kw) | tuple(regs)
+    # documented structure of the chosen option: the gate set of the mesh, and nothing dropped with drop_identity=False
+    m = len(U)
+    prog0 = sf.Program(m)
+    if data.get("via") == "kwargs":
+        other = "rectangular" if mesh != "rectangular" else "triangular_compact"
+        seq = ops.Interferometer(U, mesh=other)._decompose(list(prog0.register), mesh=mesh, **kw)
+    else:
+        seq = ops.Interferometer(U, mesh=mesh, **kw)._decompose(list(prog0.register))
+    names = [c.op.__class__.__name__ for c in seq]
+    two = {"rectangular_symmetric": "MZgate", "rectangular_compact": "sMZgate", "triangular_compact": "sMZgate"}.get(mesh, "BSgate")
+    if any(nm not in (two, "Rgate") for nm in names):
+        return 1.0
+    if data.get("drop_identity") is False and mesh in MESHES[:4]:
+        if names.count(two) != m * (m - 1) // 2:
+            return 1.0
+        if mesh != "rectangular_symmetric" and names.count("Rgate") != m * (m - 1) // 2 + m:
+            return 1.0
     W, S, d = passive_action(n, build)
     We = np.identity(n, dtype=complex)
     for i, a in enumerate(targets):
@@ -611,8 +638,12 @@ def search_interferometers(ctx, count):
             targets = rng.sample(range(n), m)
         U = unitary_of_class(rng, cls, m)
         data = {"check": "interferometer", "mesh": mesh, "class": cls, "n": n, "targets": targets, "U": mat_json(U)}
-        if mesh in MESHES[:4] and rng.random() < 0.3:
-            data["drop_identity"] = False
+        if mesh in MESHES[:4] and rng.random() < 0.4:
+            data["drop_identity"] = bool(rng.random() < 0.3)
+        if rng.random() < 0.3:
+            data["tol"] = rng.choice([1e-3, 1e-9, 1e-6])
+        if rng.random() < 0.25:
+            data["via"] = "kwargs"
         ctx.case({k: v for k, v in data.items() if k != "U"},
                  nontrivial=(cls != "haar" or mesh != "rectangular" or targets != list(range(m))),
                  bucket="interferometer:%s:%s" % (mesh, cls))
@@ -730,17 +761,22 @@ def check_gtransform(data):
     targets = data["targets"]
     N = data["n"]
 
+    topt = {} if data.get("tol") is None else {"tol": data["tol"]}
     if data.get("vacuum"):
         prog = sf.Program(N)
         with prog.context as q:
-            ops.GaussianTransform(S, vacuum=True) | tuple(q[t] for t in targets)
+            ops.GaussianTransform(S, vacuum=True, **topt) | tuple(q[t] for t in targets)
         st = sf.Engine("gaussian").run(prog).state
         idx = list(targets) + [N + t for t in targets]
         cov = st.cov()[np.ix_(idx, idx)]
         return float(np.abs(cov - (sf.hbar / 2) * S @ S.T).max())
 
     def build(q):
-        ops.GaussianTransform(S) | tuple(q[t] for t in targets)
+        if data.get("mesh"):
+            for c in ops.GaussianTransform(S, **topt)._decompose([q[t] for t in targets], mesh=data["mesh"]):
+                c.op | (tuple(c.reg) if isinstance(c.reg, (list, tuple)) else c.reg)
+        else:
+            ops.GaussianTransform(S, **topt) | tuple(q[t] for t in targets)
     Sg, dg = affine_of(N, build)
     Se = np.identity(2 * N)
     idx = list(targets) + [N + t for t in targets]
@@ -765,6 +801,10 @@ def search_gtransform(ctx, count):
         N = n + rng.randint(0, 2)
         targets = rng.sample(range(N), n)
         data = {"check": "gtransform", "class": cls, "S": S.tolist(), "n": N, "targets": targets, "vacuum": bool(rng.random() < 0.3)}
+        if rng.random() < 0.3:
+            data["tol"] = rng.choice([1e-6, 1e-12])
+        if not data["vacuum"] and rng.random() < 0.3:
+            data["mesh"] = rng.choice(["rectangular_phase_end", "rectangular_symmetric", "triangular", "rectangular_compact", "triangular_compact"])
         ctx.case({k: v for k, v in data.items() if k != "S"}, nontrivial=(cls != "active" or targets != list(range(n)) or data["vacuum"]),
                  bucket="gtransform:" + cls)
         try:
@@ -827,7 +867,8 @@ def check_gaussian_prep(data):
         with prog.context as q:
             for i in range(N):     # something to be demolished by the preparation
                 ops.Sgate(0.3, 0.1 * i) | q[i]
-            ops.Gaussian(V, r, decomp=dec_flag) | tuple(q[t] for t in targets)
+            opts = {} if data.get("tol") is None else {"tol": data["tol"]}
+            ops.Gaussian(V, None if data.get("r_none") else r, decomp=dec_flag, **opts) | tuple(q[t] for t in targets)
         st = sf.Engine("gaussian").run(prog).state
         idx = list(targets) + [N + t for t in targets]
         out.append((np.array(st.means())[idx], np.array(st.cov())[np.ix_(idx, idx)]))
@@ -869,6 +910,11 @@ def search_gaussian_prep(ctx, count):
         N = n + rng.randint(0, 1)
         targets = rng.sample(range(N), n)
         data = {"check": "gaussian-prep", "class": cls, "V": V.tolist(), "r": r.tolist(), "n": N, "targets": targets}
+        if rng.random() < 0.2:
+            data["r_none"], data["r"] = True, [0.0] * (2 * n)
+            r = np.zeros(2 * n)
+        if rng.random() < 0.3:
+            data["tol"] = rng.choice([1e-4, 1e-8])
         ctx.case({k: v for k, v in data.items() if k != "V"}, nontrivial=(cls not in ("random-pure", "random-mixed") or targets != list(range(n))),
                  bucket="gaussian-prep:" + cls)
         try:
@@ -888,29 +934,10 @@ def search_gaussian_prep(ctx, count):
                                % (cls, targets, dev), data)
 
 
-# ---- graph embeddings ----
-def check_graph(data):
-    from thewalrus.quantum import Amat
-    A = mat_of(data["A"])
-    nbar = data["nbar"]
-    if data["kind"] == "graph":
-        n = len(A)
-        prog = sf.Program(n)
-        with prog.context as q:
-            ops.GraphEmbed(A, mean_photon_per_mode=nbar) | tuple(q)
-        full = A
-    else:
-        n = 2 * len(A)
-        prog = sf.Program(n)
-        with prog.context as q:
-            ops.BipartiteGraphEmbed(A, mean_photon_per_mode=nbar, edges=True) | tuple(q)
-        z = np.zeros_like(A)
-        full = np.block([[z, A], [A.T, z]])
-    st = sf.Engine("gaussian").run(prog).state
-    cov = st.cov()
-    Am = Amat(cov, hbar=sf.hbar)[:n, :n]
-    # the state's A matrix must be a positive multiple of the adjacency matrix, with the requested mean photon number
-    # (thewalrus' convention makes the state's A the complex conjugate of the embedded matrix; |Haf|^2 is the same)
+# ---- graph embeddings: every option of GraphEmbed / BipartiteGraphEmbed / the decompositions.* embedders ----
+def _prop_dev(Am, full):
+    """deviation of Am from a positive multiple of `full` (or of its conjugate: thewalrus' convention makes the state's
+    A the complex conjugate of the embedded matrix; |Haf|^2 is the same)"""
     best = None
     for target in (full, np.conj(full)):
         k = np.vdot(target, Am) / np.vdot(target, target)
@@ -918,40 +945,191 @@ def check_graph(data):
         bad_scale = 0.0 if (abs(k.imag) < 1e-7 and k.real > 0) else 1.0
         cand = max(dev_a, bad_scale)
         best = cand if best is None else min(best, cand)
+    return best
+
+
+def _run_with_kwargs(n, op, targets, kw):
+    """state after `op | targets`; with kw, the commands of op._decompose(reg, **kw) are appended instead (the route a
+    compiler's `decompositions` table takes: Xcov/Xunitary pass mesh / drop_identity this way)"""
+    prog = sf.Program(n)
+    with prog.context as q:
+        regs = [q[t] for t in targets]
+        if kw is None:
+            op | tuple(regs)
+        else:
+            for c in op._decompose(regs, **kw):
+                c.op | (tuple(c.reg) if isinstance(c.reg, (list, tuple)) else c.reg)
+    return sf.Engine("gaussian").run(prog).state
+
+
+def check_graph(data):
+    """Documented outcome: the prepared pure Gaussian state has zero means, A-matrix proportional (positive factor) to the
+    documented matrix (A, or A - tr(A) I/n with make_traceless; [[0,B],[B^T,0]] for the bipartite embedding) and
+    (1/N) sum_i <n_i> equal to the requested mean_photon_per_mode."""
+    from thewalrus.quantum import Amat
+    A = mat_of(data["A"])
+    nbar = data["nbar"]
+    kw = data.get("kwargs")
+    if data["kind"] == "graph":
+        n = len(A)
+        opts = {}
+        if data.get("make_traceless") is not None:
+            opts["make_traceless"] = data["make_traceless"]
+        if data.get("tol") is not None:
+            opts["tol"] = data["tol"]
+        op = ops.GraphEmbed(A, mean_photon_per_mode=nbar, **opts)
+        full = A - np.trace(A) * np.identity(n) / n if data.get("make_traceless") else A
+    else:
+        B = A
+        n = 2 * len(B)
+        z = np.zeros_like(B)
+        full = np.block([[z, B], [B.T, z]])
+        opts = {}
+        if data.get("drop_identity") is not None:
+            opts["drop_identity"] = data["drop_identity"]
+        if data.get("tol") is not None:
+            opts["tol"] = data["tol"]
+        if data.get("edges", True):
+            op = ops.BipartiteGraphEmbed(B, mean_photon_per_mode=nbar, edges=True, **opts)
+        else:
+            op = ops.BipartiteGraphEmbed(full, mean_photon_per_mode=nbar, edges=False, **opts)
+    targets = data.get("targets") or list(range(n))
+    N = data.get("n", n)
+    st = _run_with_kwargs(N, op, targets, kw)
+    idx = list(targets) + [N + t for t in targets]
+    cov = np.array(st.cov())[np.ix_(idx, idx)]
+    Am = Amat(cov, hbar=sf.hbar)[:n, :n]
     mean_n = float((np.trace(cov) / sf.hbar - n) / 2 / n)
-    return max(best, abs(mean_n - nbar), float(np.abs(st.means()).max()))
+    return max(_prop_dev(Am, full), abs(mean_n - nbar), float(np.abs(np.array(st.means())[idx]).max()))
+
+
+def check_embed_fn(data):
+    """The functions of decompositions.py themselves: U diag(tanh(-sq)) U^T must be a positive multiple of the documented
+    matrix, and the squeezing must give the documented photon number (mean per mode, or the maximum for the deprecated one)."""
+    A = mat_of(data["A"])
+    n = len(A)
+    fn = data["fn"]
+    mt = bool(data.get("make_traceless"))
+    target = A - np.trace(A) * np.identity(n) / n if mt else A
+    if fn == "graph_embed":
+        sq, U = dec.graph_embed(A, mean_photon_per_mode=data["nbar"], make_traceless=mt)
+        photon = float(np.mean(np.sinh(sq) ** 2))
+    elif fn == "graph_embed_deprecated":
+        sq, U = dec.graph_embed_deprecated(A, max_mean_photon=data["nbar"], make_traceless=mt)
+        photon = float(np.max(np.sinh(sq) ** 2))
+    else:
+        sq, U, V = dec.bipartite_graph_embed(A, mean_photon_per_mode=data["nbar"])
+        rec = U @ np.diag(np.tanh(-sq)) @ V.T
+        photon = float(np.mean(np.sinh(sq) ** 2))
+        k = np.vdot(A, rec) / np.vdot(A, A)
+        bad = 0.0 if (abs(k.imag) < 1e-7 and k.real > 0) else 1.0
+        return max(float(np.abs(rec - k * A).max()), bad, abs(photon - data["nbar"]),
+                   float(np.abs(U @ U.conj().T - np.identity(n)).max()), float(np.abs(V @ V.conj().T - np.identity(n)).max()))
+    rec = U @ np.diag(np.tanh(-sq)) @ U.T
+    k = np.vdot(target, rec) / np.vdot(target, target)
+    bad = 0.0 if (abs(k.imag) < 1e-7 and k.real > 0) else 1.0
+    return max(float(np.abs(rec - k * target).max()), bad, abs(photon - data["nbar"]),
+               float(np.abs(U @ U.conj().T - np.identity(n)).max()))
+
+
+def _graph_matrix(rng, cls, n, symmetric):
+    if cls == "identity":
+        return np.identity(n, dtype=complex)
+    if cls == "permutation":
+        p = list(range(n))
+        rng.shuffle(p)
+        P = np.identity(n, dtype=complex)[p]
+        return ((P + P.T) > 0).astype(complex) if symmetric else P
+    if cls == "diagonal":
+        return np.diag([rng.choice([0.5, 1.0, 2.0, -1.0, 1.0]) for _ in range(n)]).astype(complex)
+    if cls == "rank1":
+        v = np.array([rng.uniform(-1, 1) for _ in range(n)], dtype=complex)
+        w = v if symmetric else np.array([rng.uniform(-1, 1) for _ in range(n)], dtype=complex)
+        return np.outer(v, w)
+    M = np.array([[rng.uniform(-1, 1) for _ in range(n)] for _ in range(n)], dtype=complex)
+    if cls in ("complex", "complex-selfloops"):
+        M = M + 1j * np.array([[rng.uniform(-1, 1) for _ in range(n)] for _ in range(n)])
+    if cls in ("01", "01-selfloops"):
+        M = np.array([[float(rng.random() < 0.6) for _ in range(n)] for _ in range(n)], dtype=complex)
+    if cls == "sparse":
+        M = M * np.array([[float(rng.random() < 0.5) for _ in range(n)] for _ in range(n)])
+    if symmetric:
+        M = M + M.T
+        if cls in ("01", "01-selfloops"):
+            M = (np.abs(M) > 0).astype(complex)
+        if cls == "01":
+            np.fill_diagonal(M, 0)                      # simple graph
+        if cls == "01-selfloops":
+            np.fill_diagonal(M, [float(rng.random() < 0.7) for _ in range(n)])
+        if cls == "weighted-diagonal":
+            np.fill_diagonal(M, [rng.choice([0.5, 1.0, 2.0, -1.0, 3.0]) for _ in range(n)])
+        if cls == "traceless":
+            M = M - np.trace(M) * np.identity(n) / n
+    return M
+
+
+GRAPH_CLASSES = ["real", "complex", "01", "sparse", "01-selfloops", "weighted-diagonal", "complex-selfloops", "traceless",
+                 "identity", "permutation", "diagonal", "rank1"]
+NBARS = [0.05, 0.2, 0.5, 1.0, 2.5]
 
 
 def search_graph(ctx, count):
     rng = ctx.rng
     for _ in range(count):
-        kind = rng.choice(["graph", "bipartite"])
+        kind = rng.choice(["graph", "graph", "bipartite", "fn"])
         n = rng.randint(2, 4)
-        cls = rng.choice(["real", "complex", "01", "sparse"])
-        M = np.array([[rng.uniform(-1, 1) for _ in range(n)] for _ in range(n)], dtype=complex)
-        if cls == "complex":
-            M = M + 1j * np.array([[rng.uniform(-1, 1) for _ in range(n)] for _ in range(n)])
-        if cls == "01":
-            M = np.array([[float(rng.random() < 0.6) for _ in range(n)] for _ in range(n)], dtype=complex)
-        if cls == "sparse":
-            M = M * np.array([[float(rng.random() < 0.5) for _ in range(n)] for _ in range(n)])
-        if kind == "graph":
-            M = M + M.T
-            if cls == "01":
-                M = (np.abs(M) > 0).astype(complex)
-                np.fill_diagonal(M, 0)
-        if np.linalg.matrix_rank(M) == 0 or np.allclose(M, np.identity(n)):
+        cls = rng.choice(GRAPH_CLASSES)
+        symmetric = kind != "bipartite" and not (kind == "fn" and False)
+        M = _graph_matrix(rng, cls, n, symmetric)
+        nbar = rng.choice(NBARS) if rng.random() < 0.7 else round(rng.uniform(0.05, 2.0), 3)
+        if kind == "fn":
+            fn = rng.choice(["graph_embed", "graph_embed_deprecated", "bipartite_graph_embed"])
+            if fn == "bipartite_graph_embed" and rng.random() < 0.6:
+                M = _graph_matrix(rng, cls, n, False)
+            data = {"check": "embed-fn", "fn": fn, "class": cls, "A": mat_json(M), "nbar": nbar,
+                    "make_traceless": bool(rng.random() < 0.5) if fn != "bipartite_graph_embed" else None}
+        elif kind == "graph":
+            data = {"check": "graph", "kind": kind, "class": cls, "A": mat_json(M), "nbar": nbar,
+                    "make_traceless": rng.choice([None, False, True, True]), "tol": rng.choice([None, None, 1e-8, 1e-3])}
+            if rng.random() < 0.3:
+                data["kwargs"] = {"mesh": rng.choice(MESHES[:3] + ["rectangular_compact", "triangular_compact"])}
+        else:
+            data = {"check": "graph", "kind": kind, "class": cls, "A": mat_json(M), "nbar": nbar,
+                    "edges": bool(rng.random() < 0.6), "drop_identity": rng.choice([None, True, False]),
+                    "tol": rng.choice([None, None, 1e-8, 1e-3])}
+            if rng.random() < 0.35:
+                data["kwargs"] = {k: v for k, v in (("mesh", rng.choice(MESHES[:3] + ["rectangular_compact", "triangular"])),
+                                                    ("drop_identity", rng.choice([True, False])),
+                                                    ("mean_photon_per_mode", nbar)) if rng.random() < 0.7}
+        nm = len(M) if kind != "bipartite" else 2 * len(M)
+        if kind != "fn" and rng.random() < 0.3:
+            N = nm + rng.randint(0, 2)
+            data["n"], data["targets"] = N, rng.sample(range(N), nm)
+        A_eff = M - np.trace(M) * np.identity(n) / n if data.get("make_traceless") else M
+        if np.abs(A_eff).max() < 1e-9 or np.linalg.matrix_rank(M) == 0:
             continue
-        data = {"check": "graph", "kind": kind, "class": cls, "A": mat_json(M), "nbar": rng.choice([0.5, 1.0, 0.2])}
-        ctx.case({"check": "graph", "kind": kind, "class": cls, "n": n}, nontrivial=(cls != "real"), bucket="graph:%s:%s" % (kind, cls))
+        if kind != "bipartite" and np.allclose(M, np.identity(n)):
+            continue     # GraphEmbed(identity) is defined (and unit-tested) to do nothing
+        opts = {k: v for k, v in data.items() if k not in ("A",)}
+        ctx.case(opts, nontrivial=(cls != "real" or bool(data.get("make_traceless")) or "kwargs" in data or data.get("edges") is False),
+                 bucket="graph:%s:%s%s" % (data.get("fn", kind), cls, ":traceless" if data.get("make_traceless") else ""))
         try:
-            dev = check_graph(data)
+            dev = check_embed_fn(data) if kind == "fn" else check_graph(data)
         except Exception as e:
-            ctx.counterexample("graph-embed:%s:raises:%s" % (kind, type(e).__name__), "%s embedding of a %s matrix raised %r" % (kind, cls, e), data)
+            ctx.counterexample("graph-embed:%s:raises:%s" % (data.get("fn", kind), type(e).__name__),
+                               "%s embedding of a %s matrix (options %s) raised %r" % (data.get("fn", kind), cls, {k: v for k, v in opts.items() if k not in ("check", "class")}, e), data)
             continue
-        if dev > 1e-5:
-            ctx.counterexample("graph-embed:%s:%s" % (kind, cls),
-                               "%s embedding of a %s %dx%d matrix: state's A matrix / mean photon number deviates by %.2e" % (kind, cls, n, n, dev), data)
+        if not (dev <= 1e-5):
+            what = data.get("fn", kind)
+            opt_tag = ":make_traceless" if data.get("make_traceless") else (":edges=False" if data.get("edges") is False else "")
+            sig = "graph-embed:%s:%s%s" % (what, cls, opt_tag)
+            ctor_di = True if data.get("drop_identity") is None else data["drop_identity"]
+            eff_di = (data.get("kwargs") or {}).get("drop_identity", ctor_di)    # _decompose's kwargs override the constructor
+            if what == "bipartite" and data.get("edges", True) and np.allclose(M, np.identity(n)) and eff_di:
+                sig = "graph-embed:bipartite:edge-matrix-identity-skipped"
+            ctx.counterexample(sig,
+                               "%s embedding of a %s %dx%d matrix with options %s: the state's A matrix / mean photon number / means deviate from the documented ones by %.2e"
+                               % (what, cls, n, n, {k: v for k, v in opts.items() if k not in ("check", "class", "kind")}, dev), data)
 
 
 # ---- DisplacedSqueezed._decompose against the native preparation ----
@@ -1076,7 +1254,7 @@ def search(ctx):
     search_interferometers(ctx, ctx.budget(70, 900))
     search_gaussian_prep(ctx, ctx.budget(40, 500))
     search_gtransform(ctx, ctx.budget(25, 300))
-    search_graph(ctx, ctx.budget(16, 200))
+    search_graph(ctx, ctx.budget(200, 2500))
     search_ggate(ctx, ctx.budget(10, 60))
     search_dsq(ctx, ctx.budget(10, 100))
     search_native(ctx, ctx.budget(14, 120))
@@ -1086,6 +1264,7 @@ def search(ctx):
 CHECKS = {
     "interferometer": (check_interferometer, TOL_MAT), "native": (check_native, TOL_FOCK), "ggate": (check_ggate, TOL),
     "gtransform": (check_gtransform, TOL_MAT), "gaussian-prep": (check_gaussian_prep, TOL_MAT), "graph": (check_graph, 1e-5),
+    "embed-fn": (check_embed_fn, 1e-5),
     "dsq": (check_dsq, TOL),
 }
 
@@ -1102,7 +1281,7 @@ def replay(ctx, data, quiet=False):
             say("raised:", repr(e))
             return True
         say("deviation %.3e (tolerance %.1e)" % (dev, tol))
-        return dev > tol
+        return not (dev <= tol)
     if kind == "targets":
         dev = check_targets(d)
         tol = TOL if d["other"] == "bosonic" else 2e-3
